@@ -113,11 +113,17 @@ func checkC19(c *Ctx) error {
 				"stderr": firstPanicLines(r.Stderr)})
 		}
 	}
+	compiled := map[string]string{} // text -> expression, for the commands built on generate
 	parallel(len(texts), 16, func(i int) {
 		t := texts[i]
 		r := c.runCLIEnv(root, t, nil, 10*time.Second, "-d", root, "regex", "generate", "-")
 		atomic.AddInt64(&cli, 1)
 		judge(t, "stdin", r)
+		if r.Exit == 0 && !r.TimedOut && r.Stdout != "" {
+			cmu.Lock()
+			compiled[t] = r.Stdout
+			cmu.Unlock()
+		}
 		if i%4 == 0 {
 			// the same text as an include file
 			dir, err := c.newSandbox(fmt.Sprintf("fz%d", i))
@@ -133,6 +139,42 @@ func checkC19(c *Ctx) error {
 			os.RemoveAll(dir)
 		}
 	})
+	// the commands built on generate (compare with its report of the first difference, update): the
+	// longest expressions and a seeded sample, against a rules file whose stored operand is short
+	var ctexts []string
+	for t := range compiled {
+		ctexts = append(ctexts, t)
+	}
+	sort.Slice(ctexts, func(i, j int) bool {
+		if len(compiled[ctexts[i]]) != len(compiled[ctexts[j]]) {
+			return len(compiled[ctexts[i]]) > len(compiled[ctexts[j]])
+		}
+		return ctexts[i] < ctexts[j]
+	})
+	var pick []string
+	for i, t := range ctexts {
+		if i < 120 || caseHash([]string{t}, c.Seed)%uint64(len(ctexts)/120+1) == 0 {
+			pick = append(pick, t)
+		}
+	}
+	var built int64
+	parallel(len(pick), 16, func(i int) {
+		t := pick[i]
+		d, err := c.newSandbox(fmt.Sprintf("fzc%d", i))
+		if err != nil {
+			return
+		}
+		defer os.RemoveAll(d)
+		writeTree(d, Tree{"regex-assembly/932100.ra": t, "regex-assembly/include/f.ra": "inc\n", "regex-assembly/include/x.ra": "inc\n",
+			"rules/REQUEST-932-X.conf": "SecRule ARGS \"@rx oldfoo\" \\\n    \"id:932100,\\\n    block\"\n"})
+		for _, args := range [][]string{{"regex", "compare", "932100"}, {"-o", "github", "regex", "compare", "--all"}, {"regex", "update", "932100"}, {"regex", "compare", "--all"}} {
+			r := c.runCLIEnv(d, "", nil, 10*time.Second, append([]string{"-d", d}, args...)...)
+			atomic.AddInt64(&cli, 1)
+			atomic.AddInt64(&built, 1)
+			judge(t, strings.Join(args, " "), r)
+		}
+	})
+	c.Cov["runs_of_commands_built_on_generate"] = built
 	for i, t := range texts {
 		if i%(len(texts)/4+1) == 0 {
 			c.addSample(map[string]any{"input": t})
@@ -149,7 +191,7 @@ func checkC19(c *Ctx) error {
 	c.Cov["cli_executions"] = cli
 	c.Cov["outcome_classes"] = classes
 	c.Cov["exhaustive"] = false
-	c.Cov["rule"] = "design level: MC_Cleanup proves NoCrash and Terminates for the character-level transcription of the clean-up passes on all texts up to the bound over 10 characters, and the real passes are compared with it on each of them; " + fmt.Sprintf("texts are token sequences generated by TLC from MC_Fuzz (82 tokens: directive fragments, metacharacters, escapes incl. the escaped-parenthesis-flag family and \\Q quoting that ends in an open bracket, braces, quotes, NUL/control/non-ASCII/invalid UTF-8 bytes): all sequences of <= %d tokens (1/%d sampled) plus random sequences up to %d tokens; each text goes to `generate -` and every 4th also into an include file; allowed: exit 0, exit 1, or exit 2 with a deliberate panic message; a runtime error, a Go fatal error, a signal or no termination within 10 s is a violation; non-trivial = text of at least 2 bytes, distinct by text", exLen, keepMod, simDepth)
+	c.Cov["rule"] = "design level: MC_Cleanup proves NoCrash and Terminates for the character-level transcription of the clean-up passes on all texts up to the bound over 10 characters, and the real passes are compared with it on each of them; " + fmt.Sprintf("texts are token sequences generated by TLC from MC_Fuzz (82 tokens: directive fragments, metacharacters, escapes incl. the escaped-parenthesis-flag family and \\Q quoting that ends in an open bracket, braces, quotes, NUL/control/non-ASCII/invalid UTF-8 bytes): all sequences of <= %d tokens (1/%d sampled) plus random sequences up to %d tokens; each text goes to `generate -` and every 4th also into an include file; the longest expressions and a sample also go through compare (text and github, single and --all) and update against a rules file with a short stored operand; allowed: exit 0, exit 1, or exit 2 with a deliberate panic message; a runtime error, a Go fatal error, a signal or no termination within 10 s is a violation; non-trivial = text of at least 2 bytes, distinct by text", exLen, keepMod, simDepth)
 	c.Summary = fmt.Sprintf("texts=%d cli=%d classes=%v", len(texts), cli, classes)
 	return nil
 }
